@@ -62,6 +62,39 @@ def fingerprint(obj, depth=0):
     return h.hexdigest()
 
 
+_FILES = {}
+
+
+def file_fixtures():
+    """files for the multi-file readers, written once per process: two single-site SWAN files whose names sort AGAINST the order the caller
+    lists them in, and three TRIAXYS files; a World holds fresh lists of these paths (caller-owned query lists like any other)."""
+    if _FILES:
+        return _FILES
+    import random
+    import xarray as xr
+    import wavespectra  # noqa
+    from harness import instruments as I
+    d = tempfile.mkdtemp(prefix="c17-files-", dir=os.path.join(BUILD, "traces"))
+    t = np.datetime64("2020-01-01") + np.arange(2) * np.timedelta64(3600, "s")
+    swan = []
+    for name, lon in (("b_east.spec", 12.0), ("a_west.spec", 3.0)):
+        e = xr.DataArray(S.base_values(1)[:2, None], dims=("time", "site", "freq", "dir"),
+                         coords={"time": t, "site": [0], "freq": S.FREQ, "dir": S.GRIDS[1]}, name="efth").to_dataset()
+        e["lon"], e["lat"] = (("site",), [lon]), (("site",), [40.0])
+        pth = os.path.join(d, name)
+        e.spec.to_swan(pth)
+        swan.append(pth)
+    case = I.random_case("triaxys", random.Random("c17"), ntimes=3, nfreq=5, shuffle=False, toff=0)
+    case["names"] = "time"
+    os.makedirs(os.path.join(d, "tx"))
+    tx = list(I.encode(case, os.path.join(d, "tx")))
+    _FILES.update(swan=swan, triaxys=sorted(tx, reverse=True))
+    import atexit
+    import shutil
+    atexit.register(shutil.rmtree, d, True)
+    return _FILES
+
+
 class World:
     """the objects a program operates on (rebuilt for every program)."""
 
@@ -151,15 +184,20 @@ class World:
                                  "latitude": [10.0, 9.5], "longitude": [100.0, 100.5]})
         era["d2fd"].values[0, 0, 0, 0, 0] = np.nan
         self.native["era5"] = era
+        fx = file_fixtures()
+        self.swanfiles = list(fx["swan"])           # listed east first: not in file-name order
+        self.triaxysfiles = list(fx["triaxys"])     # listed latest first
 
     def objects(self):
         return [self.ds, self.buffer, self.qlons_np, self.qlats_np, self.qlons_list, self.qlats_list, self.qlons_da, self.qlats_da,
                 self.dset_lons, self.dset_lats, self.bboxes, self.freq_kwargs, self.dir_kwargs, self.stats_dict, self.tgt_freq, self.tgt_dir,
-                self.native["ww3"], self.native["ncswan"], self.native["wwm"], self.native["era5"], self.ds1d, self.time_encoding, self.buoy, self.onedir, self.nanf32]
+                self.native["ww3"], self.native["ncswan"], self.native["wwm"], self.native["era5"], self.ds1d, self.time_encoding, self.buoy, self.onedir, self.nanf32,
+                self.swanfiles, self.triaxysfiles]
 
     NAMES = ["dataset", "caller buffer", "query lons (ndarray)", "query lats (ndarray)", "query lons (list)", "query lats (list)",
              "query lons (DataArray)", "query lats (DataArray)", "dset_lons", "dset_lats", "bboxes list", "freq_kwargs", "dir_kwargs",
-             "stats dict", "target freq", "target dir list", "native WW3 dataset", "native SWAN-nc dataset", "native WWM dataset", "native ERA5 dataset", "1-D spectra dataset", "time_encoding dict", "single-buoy dataset (scalar lon/lat)", "one-direction DataArray", "float32 C-ordered spectra with NaN bins"]
+             "stats dict", "target freq", "target dir list", "native WW3 dataset", "native SWAN-nc dataset", "native WWM dataset", "native ERA5 dataset", "1-D spectra dataset", "time_encoding dict", "single-buoy dataset (scalar lon/lat)", "one-direction DataArray", "float32 C-ordered spectra with NaN bins",
+             "list of SWAN file names", "list of TRIAXYS file names"]
 
 
 def xr_full(da, v):
@@ -238,6 +276,10 @@ def ops_table():
         "to_netcdf3": lambda W: W.ds.spec.to_netcdf(os.path.join(W.tmp, "a.nc"), ncformat="NETCDF3_64BIT", compress=False, packed=False),
         "to_netcdf3_kw": lambda W: W.ds.spec.to_netcdf(os.path.join(W.tmp, "k.nc"), ncformat="NETCDF3_64BIT", compress=False, packed=False,
                                                         time_encoding=W.time_encoding, specname="efth"),
+        "read_swans_list": lambda W: __import__("wavespectra").input.swan.read_swans(W.swanfiles, int_freq=False),
+        "read_swanow_list": lambda W: __import__("wavespectra").input.swan.read_swanow(W.swanfiles),
+        "read_hotswan_list": lambda W: __import__("wavespectra").input.swan.read_hotswan(W.swanfiles[:1]),
+        "read_triaxys_list": lambda W: __import__("wavespectra").read_triaxys(W.triaxysfiles),
         "to_ww3": lambda W: W.ds.spec.to_ww3(os.path.join(W.tmp, "w.nc"), ncformat="NETCDF3_64BIT", compress=False),
     }
     return t
@@ -254,7 +296,7 @@ def run(ctx):
     names = sorted(table)
     maxlen = 2
     q = "{" + ",".join('"%s"' % n for n in names) + "}"
-    cfg = ws.write_cfg("frame_%d.cfg" % maxlen, "SPECIFICATION Spec\nCONSTANTS OPS = %s\n NOBJ = 25\n MAXLEN = %d\nPROPERTY ArgsImmutable\nINVARIANT EmitInv\n" % (q, maxlen))
+    cfg = ws.write_cfg("frame_%d.cfg" % maxlen, "SPECIFICATION Spec\nCONSTANTS OPS = %s\n NOBJ = 27\n MAXLEN = %d\nPROPERTY ArgsImmutable\nINVARIANT EmitInv\n" % (q, maxlen))
     r = ctx.tlc("Frame", cfg, workers=4, label="programs of %d calls over %d operations" % (maxlen, len(names)))
     for inv in r.violated:
         if inv != "EmitInv":
